@@ -236,6 +236,9 @@ pub fn parts(id: &'static str, tier: Tier) -> Option<(Vec<Part<Case>>, String)> 
             let mut dd = c.clone();
             dd.direct_pct = 35;
             dd.w_trading = 8;
+            // a market snapshot / restore in the middle of a history: afterwards each asset must still equal
+            // its (never restored) stand-alone book
+            dd.w_reload = 2;
             v.push(market_part("market-random-dense-direct-book-access", dd, 4, tier.pick(60_000, 1_200_000)));
             let mut z = c.clone();
             z.zero_vol_pct = 12;
